@@ -444,26 +444,165 @@ theorem written_append (a b : List Act) : written (a ++ b) = written a ++ writte
   | nil => rfl
   | cons x r ih => cases x <;> simp [written, ih]
 
+/-- the run after a `Write` that left the writer `w` and issued `o` -/
+def Run.wrote (r : Run) (w : WSt) (o : List FsOp) : Run :=
+  { cs := { r.cs with w := some w }, d := r.d.applyAll o, ops := r.ops ++ o }
+
+theorem step_cs (c : Cfg) (mk : Mk) (r : Run) (a : Act) :
+    (r.step c mk a).cs.nlName = r.cs.nlName ∧ (r.step c mk a).cs.bs = r.cs.bs := by
+  cases a with
+  | w items =>
+    simp only [Run.step, cWrite]
+    split
+    · exact ⟨rfl, rfl⟩
+    · split <;> exact ⟨rfl, rfl⟩
+  | sync => simp only [Run.step, cSync]; split <;> exact ⟨rfl, rfl⟩
+  | close => simp only [Run.step, cClose]; split <;> exact ⟨rfl, rfl⟩
+
+theorem Started.append_nil {mk : Mk} {nl bs : Nat} {r : Run} {wr : List Op} {evs : List Ev}
+    (h : Started mk nl bs r wr evs) : Started mk nl bs r wr (evs ++ []) := by simpa using h
+
+/-- **A started run only ever extends its event log**: whatever the next act, the operations are
+    the old session log followed by further events. -/
+theorem step_started (c : Cfg) (mk : Mk) (hmk : MkOk mk) (nl bs : Nat) (r : Run) (wr : List Op) (evs : List Ev)
+    (hbs : r.cs.bs = bs) (hst : Started mk nl bs r wr evs) (a : Act) :
+    ∃ e2, Started mk nl bs (r.step c mk a) (wr ++ written [a]) (evs ++ e2) := by
+  cases a with
+  | w items =>
+    simp only [Run.step, written, List.append_nil]
+    by_cases hemp : items.isEmpty = true
+    · have : items = [] := by simpa using hemp
+      subst this
+      simp only [cWrite, List.isEmpty_nil, if_true, Disk.applyAll_nil, List.append_nil, List.map_nil]
+      exact ⟨[], hst.append_nil⟩
+    · simp only [cWrite, hemp, if_false, Bool.false_eq_true]
+      obtain ⟨hops, hd, hwf, hwriter⟩ := hst
+      have key : ∀ w0 : WSt, WMain w0 nl bs → w0.pos = (fileCells nl (evBlocks evs)).length →
+          entsOf (evBlocks evs) ++ w0.buf = wr → w0.buf.length < maxEnts →
+          ∀ o0, ensureW c r.d r.cs = some (w0, o0) → o0 = [] →
+          ∃ e2, Started mk nl bs (r.wrote (addManyW mk w0 items).1 (o0 ++ (addManyW mk w0 items).2))
+            (wr ++ items.map (·.1)) (evs ++ e2) := by
+        intro w0 hw0 hpos hent hcnt o0 _ ho0
+        subst ho0
+        obtain ⟨e2, hev, hents⟩ := addManyW_ev mk hmk nl bs items w0 hw0 hcnt
+        obtain ⟨h1, h2⟩ := Started.extend (e2 := e2) hops hd w0.pos hpos
+        refine ⟨e2, ?_, ?_, ?_, ?_⟩
+        · simp only [Run.wrote, List.nil_append]; rw [hev.ops]; exact h1
+        · simp only [Run.wrote, List.nil_append]; rw [hev.ops]; exact h2
+        · intro b hb
+          rw [evBlocks_append] at hb
+          rcases List.mem_append.mp hb with hb | hb
+          · exact hwf b hb
+          · exact hev.wf b hb
+        · simp only [Run.wrote]
+          refine ⟨hev.main, ?_, ?_, hev.cnt⟩
+          · rw [hev.pos, hpos, fileCells_length, fileCells_length, evBlocks_append, render_append, evSize_eq]
+            simp; omega
+          · rw [evBlocks_append, entsOf_append, List.append_assoc, hents, ← List.append_assoc, hent]
+      cases hw : r.cs.w with
+      | some w0 =>
+        rw [hw] at hwriter
+        obtain ⟨hw0, hpos, hent, hcnt⟩ := hwriter
+        have he : ensureW c r.d r.cs = some (w0, []) := by simp [ensureW, hw]
+        simp only [he]
+        exact key w0 hw0 hpos hent hcnt [] he rfl
+      | none =>
+        rw [hw] at hwriter
+        let w1 : WSt := { path := .main, pos := (fileCells nl (evBlocks evs)).length, nl := nl, buf := [], bufSize := 0, bs := bs }
+        have he : ensureW c r.d r.cs = some (w1, []) := by
+          simp only [ensureW, hw, hd, hbs]
+          exact openWriter_clean c nl bs _ hwf none _
+        simp only [he]
+        exact key w1 ⟨rfl, rfl, rfl⟩ rfl (by simpa [w1] using hwriter) maxEnts_pos [] he rfl
+  | sync =>
+    simp only [Run.step, written, List.append_nil]
+    cases hw : r.cs.w with
+    | none =>
+      simp only [cSync, hw, Disk.applyAll_nil, List.append_nil]
+      exact ⟨[], hst.append_nil⟩
+    | some w0 =>
+      simp only [cSync, hw]
+      obtain ⟨hops, hd, hwf, hwriter⟩ := hst
+      rw [hw] at hwriter
+      obtain ⟨hw0, hpos, hent, hcnt⟩ := hwriter
+      obtain ⟨e2, hev, hents, hbuf⟩ := syncW_ev c mk hmk nl bs w0 hw0 (Nat.le_of_lt hcnt)
+      obtain ⟨h1, h2⟩ := Started.extend (e2 := e2) hops hd w0.pos hpos
+      refine ⟨e2, ?_, ?_, ?_, ?_⟩
+      · simp only; rw [hev.ops]; exact h1
+      · simp only; rw [hev.ops]; exact h2
+      · intro b hb
+        rw [evBlocks_append] at hb
+        rcases List.mem_append.mp hb with hb | hb
+        · exact hwf b hb
+        · exact hev.wf b hb
+      · simp only
+        refine ⟨hev.main, ?_, ?_, hev.cnt⟩
+        · rw [hev.pos, hpos, fileCells_length, fileCells_length, evBlocks_append, render_append, evSize_eq]
+          simp; omega
+        · rw [hbuf, evBlocks_append, entsOf_append, hents, List.append_nil]; exact hent
+  | close =>
+    simp only [Run.step, written, List.append_nil]
+    cases hw : r.cs.w with
+    | none =>
+      simp only [cClose, hw, Disk.applyAll_nil, List.append_nil]
+      exact ⟨[], hst.append_nil⟩
+    | some w0 =>
+      simp only [cClose, hw]
+      obtain ⟨hops, hd, hwf, hwriter⟩ := hst
+      rw [hw] at hwriter
+      obtain ⟨hw0, hpos, hent, hcnt⟩ := hwriter
+      obtain ⟨e2, hev, hwf2, hents⟩ := closeW_ev c mk hmk nl bs w0 hw0 (Nat.le_of_lt hcnt)
+      obtain ⟨h1, h2⟩ := Started.extend (e2 := e2) hops hd w0.pos hpos
+      refine ⟨e2, ?_, ?_, ?_, ?_⟩
+      · simp only; rw [hev]; exact h1
+      · simp only; rw [hev]; exact h2
+      · intro b hb
+        rw [evBlocks_append] at hb
+        rcases List.mem_append.mp hb with hb | hb
+        · exact hwf b hb
+        · exact hwf2 b hb
+      · simp only
+        rw [evBlocks_append, entsOf_append, hents]; exact hent
+
+/-- any acts from a started run: the event log is extended -/
+theorem run_started (c : Cfg) (mk : Mk) (hmk : MkOk mk) (nl bs : Nat) : ∀ (acts : List Act) (r : Run) (wr : List Op)
+    (evs : List Ev), r.cs.bs = bs → Started mk nl bs r wr evs →
+    ∃ e2, Started mk nl bs (acts.foldl (Run.step c mk) r) (wr ++ written acts) (evs ++ e2) := by
+  intro acts
+  induction acts with
+  | nil => intro r wr evs _ h; exact ⟨[], by simpa [written] using h⟩
+  | cons a rest ih =>
+    intro r wr evs hbs h
+    obtain ⟨e1, h1⟩ := step_started c mk hmk nl bs r wr evs hbs h a
+    obtain ⟨e2, h2⟩ := ih _ _ _ ((step_cs c mk r a).2.trans hbs) h1
+    refine ⟨e1 ++ e2, ?_⟩
+    simp only [List.foldl_cons]
+    have hw : wr ++ written (a :: rest) = wr ++ written [a] ++ written rest := by
+      rw [show a :: rest = [a] ++ rest from rfl, written_append, List.append_assoc]
+    rw [hw, ← List.append_assoc]; exact h2
+
+/-- the invariant is kept by any acts, from any run that satisfies it (not only the empty one) -/
+theorem run_inv_gen (c : Cfg) (mk : Mk) (hmk : MkOk mk) (nl bs : Nat) : ∀ (acts : List Act) (r : Run) (wr : List Op),
+    RInv mk nl bs r wr → RInv mk nl bs (acts.foldl (Run.step c mk) r) (wr ++ written acts) := by
+  intro acts
+  induction acts with
+  | nil => intro r wr h; simpa [written] using h
+  | cons a rest ih =>
+    intro r wr h
+    have h1 := step_inv c mk hmk nl bs r wr h a
+    have h2 := ih _ _ h1
+    simp only [List.foldl_cons]
+    have : wr ++ written (a :: rest) = wr ++ written [a] ++ written rest := by
+      rw [show a :: rest = [a] ++ rest from rfl, written_append, List.append_assoc]
+    rw [this]; exact h2
+
 /-- **Tie between the executable chronicler model and the session log**: whatever acts are
     run from an empty disk, the operation log is `createOps ++ evOps …` on a clean file whose
     blocks plus the writer's buffer hold exactly the written entries. -/
 theorem run_inv (c : Cfg) (mk : Mk) (hmk : MkOk mk) (nl bs : Nat) (acts : List Act) :
     RInv mk nl bs (runActs c mk nl bs acts) (written acts) := by
-  have gen : ∀ (acts : List Act) (r : Run) (wr : List Op), RInv mk nl bs r wr →
-      RInv mk nl bs (acts.foldl (Run.step c mk) r) (wr ++ written acts) := by
-    intro acts
-    induction acts with
-    | nil => intro r wr h; simpa [written] using h
-    | cons a rest ih =>
-      intro r wr h
-      have h1 := step_inv c mk hmk nl bs r wr h a
-      have h2 := ih _ _ h1
-      simp only [List.foldl_cons]
-      have : wr ++ written (a :: rest) = wr ++ written [a] ++ written rest := by
-        rw [show a :: rest = [a] ++ rest from rfl, written_append, List.append_assoc]
-      rw [this]; exact h2
   have h0 : RInv mk nl bs { cs := { w := none, nlName := nl, bs := bs } } [] :=
     ⟨rfl, rfl, Or.inl ⟨rfl, rfl, rfl, rfl⟩⟩
-  simpa [runActs] using gen acts _ _ h0
+  simpa [runActs] using run_inv_gen c mk hmk nl bs acts _ _ h0
 
 end Hv.BlockStore
